@@ -30,6 +30,13 @@ class Capture(object):
         con = self.w.db.get_connection()
         con.set_trace_callback(self.trace.append)
 
+    def col_id(self, i, j):
+        """model column id of attribute j of entity i: odd when the DDL declares ON DELETE SET NULL for its foreign key
+        (generate_mapping: not attr.reverse.cascade_delete and an Optional, nullable attribute)"""
+        at = self.w.attrs[i][j]
+        setnull = (not at.reverse.cascade_delete) and (not at.is_required) and bool(at.nullable)
+        return 2 * j + (1 if setnull else 0)
+
     def handle_of(self, ent, pk):
         # a primary key can be reused after its first owner was deleted: the row / statement belongs to the latest object that was
         # not cancelled before ever reaching the database
@@ -73,21 +80,21 @@ class Capture(object):
             cols = []
             if st == 'created':
                 for at in E._attrs_with_columns_:
-                    if at.reverse: cols.append([w.attrs[i].index(at), ref(obj, at)])
+                    if at.reverse: cols.append([self.col_id(i, w.attrs[i].index(at)), ref(obj, at)])
             elif st == 'modified':
                 wattrs = [at for at in E._attrs_with_columns_ if E._bits_[at] & obj._wbits_]
                 for at in wattrs:
-                    if at.reverse: cols.append([w.attrs[i].index(at), ref(obj, at)])
+                    if at.reverse: cols.append([self.col_id(i, w.attrs[i].index(at)), ref(obj, at)])
                 if not wattrs: silent.append(h)
             queue.append([h, {'created': 'Created', 'modified': 'Modified', 'marked_to_delete': 'Deleted'}[st], cols])
         # objects_to_save can hold the same object twice: _delete_ works with the status / save_pos it read before the nested calls, and a
         # nested reverse.__set__(obj, None) (a one-to-one partner clearing its back reference) queues obj as 'modified' in between; the
-        # old slot is then not emptied.  flush saves the object at its FIRST slot (the later one is set to None by _save_).
-        seen, requeued, dedup = set(), [], []
+        # old slot is then not emptied.  flush saves the object at its FIRST slot (the later one is set to None by _save_); the model's
+        # lookup / drop do the same, and C16_order covers such queues (coherent_ids), so the queue is handed over as it is.
+        seen, requeued = set(), []
         for e in queue:
-            if e[0] in seen: requeued.append(e[0]); continue
-            seen.add(e[0]); dedup.append(e)
-        queue = dedup
+            if e[0] in seen: requeued.append(e[0])
+            seen.add(e[0])
         added, removed = [], []
         done = set()
         for at, objs in sorted(cache.modified_collections.items(), key=lambda p: (p[0].entity.__name__, p[0].name)):
@@ -119,10 +126,10 @@ class Capture(object):
                     fks = []
                     for (j, c), v in zip(cols, row[1:]):
                         te = self.schema['entities'][i]['attrs'][j]['target']
-                        fks.append([j, self.handle_of(te, v) if v is not None else None])
+                        fks.append([self.col_id(i, j), self.handle_of(te, v) if v is not None else None])
                         at = w.attrs[i][j]
-                        if v is not None and (at.reverse.cascade_delete or not at.is_required):
-                            self.on_delete_refs.append([h, self.handle_of(te, v)])      # the DDL has ON DELETE CASCADE / SET NULL for this reference
+                        if v is not None and at.reverse.cascade_delete:
+                            self.on_delete_refs.append([h, self.handle_of(te, v)])      # the DDL has ON DELETE CASCADE for this reference (not modelled)
                     rows.append([h, fks])
             return rows
         finally:
